@@ -11,6 +11,15 @@ open Parsley Parsley.Obj Parsley.Spelling Parsley.DocSpec Driver
     case lines (word 2 is always the hex of the file, which is all the Rust side reads):
       doc  <hex> <seed> <variant>   a well-formed one-revision document: must load to exactly its objects
       mism <hex> <seed> <variant>   the same with the offsets of two in-use entries exchanged: must be rejected
+      sys  <hex> <seed> <variant> <mode>   purpose-built document (plain objects, streams with direct / backward /
+                                    forward referenced /Length, object stream where the layout allows) in layout
+                                    variant%3 (table / stream / hybrid) with identity-mismatch corruption <mode>:
+                                    0 two plain objects swapped, 1 direct /Length stream <-> plain, 2 backward /Length
+                                    stream <-> plain, 3 forward /Length stream <-> plain, 4 two forward /Length streams
+                                    swapped (second pass only), 5 forward /Length stream listed under an unused smaller
+                                    number (second pass only), 6 plain object listed under an unused number, 7 backward-
+                                    /Length stream listed under an unused number; all must be rejected; 8 = uncorrupted
+                                    control, must load exactly
       hist <hex> <seed> <variant>   a history (C04): newest revision wins / bad /Prev chain rejected
       exp  <hex> <expected output>  hand-built corpus case with the expected output spelled out
       mut  <hex>                    a corrupted file: correspondence and no panic only
@@ -275,6 +284,51 @@ def genMism (seed variant : Nat) : Scene :=
     { sc with revs := [({ rev with lay := { rev.lay with swap := some (a, b) } }, pm)], chain := none }
   | _ => sc
 
+/-- C03: the purpose-built document of the `sys` cases.  Numbers: 1,2 plain; 3 stream with direct /Length;
+    4 holder of 5 (backward reference: the holder is loaded first); 6 unused; 7 stream, holder 8 (forward
+    reference: deferred to the second pass); 9 stream, holder 10 (forward); with stream / hybrid layouts
+    11,12 members of object stream 13. -/
+def genSys (seed variant mode : Nat) : Scene :=
+  let r := Rng.mk' (seed * 6007 + variant * 13 + 1)
+  let kind := variant % 3
+  let (garbage, r) := rndGarbage r
+  let (bin, r) := r.nat 2
+  let (p1, r) := rndValObj r 1 0
+  let (p2, r) := rndValObj r 2 0
+  let (d, r) := rndStmObj r 3 0 none
+  let (bk, r) := rndStmObj r 5 0 (some 4)
+  let (hbk, r) := holderObj r 4 (dataLen bk)
+  let (f1, r) := rndStmObj r 7 0 (some 8)
+  let (hf1, r) := holderObj r 8 (dataLen f1)
+  let (f2, r) := rndStmObj r 9 0 (some 10)
+  let (hf2, r) := holderObj r 10 (dataLen f2)
+  let (objs, mems, r) :=
+    if kind == 0 then ([p1, p2, d, bk, hbk, f1, hf1, f2, hf2], [], r)
+    else
+      let (v1, r) := rndNonNull 2 r
+      let (v2, r) := rndNonNull 2 r
+      let box (v : Obj) : Obj := match v with | .ref a b => .arr [.ref a b] | v => v
+      let (c1, r) := rndChoices r 100
+      let (c2, r) := rndChoices r 100
+      let (shell, r) := rndShell r 13 0
+      let (fl, r) := r.nat 2
+      let (c, m) := mkContainer 13 [(11, box v1, box v1, c1, [32]), (12, box v2, box v2, c2, [10])] (fl == 1) [] shell
+      ([p1, p2, d, bk, hbk, f1, hf1, f2, hf2, c], m, r)
+  let (objs, r) := shuffleL objs r
+  let (lay, _) := rndLay r kind 14 65535
+  let lay : RevLay := match mode with
+    | 0 => { lay with swap := some (1, 2) }
+    | 1 => { lay with swap := some (3, 1) }
+    | 2 => { lay with swap := some (5, 2) }
+    | 3 => { lay with swap := some (7, 1) }
+    | 4 => { lay with swap := some (7, 9) }
+    | 5 => { lay with relabel := some (7, 6) }
+    | 6 => { lay with relabel := some (1, 20) }
+    | 7 => { lay with relabel := some (5, 21) }
+    | _ => lay
+  ⟨garbage, bin == 1, [({ objs, members := mems, frees := [], zero := true, root := (1, 0), lay }, .auto)],
+   if mode ≥ 8 then some [0] else none⟩
+
 def render (sc : Scene) : Bytes × List Nat × Nat × List Said := renderHistory sc.garbage sc.binary sc.revs
 
 /-- expected output: `resolve` over the revisions on the chain -/
@@ -327,6 +381,18 @@ def judgeScene (sc : Scene) (hex impl : String) : String :=
     else if got == "rejected" then s!"bad {if classOf sc == "wrong-load" then "wellformed-rejected" else classOf sc} rejected"
     else s!"bad {classOf sc} want={(want.take 300)}"
 
+/-- the identifiers an `ok` output line reports, each with "its value is a cross-reference stream" -/
+def definedOf (out : String) : List ((Nat × Nat) × Bool) :=
+  ((out.splitOn " | ").drop 1).filterMap fun part =>
+    match part.splitOn " " with
+    | n :: g :: rest =>
+      match n.toNat?, g.toNat? with
+      | some n, some g =>
+        let v := " ".intercalate rest
+        some ((n, g), v.startsWith "(stream" && (v.splitOn "(54797065 (name 58526566))").length > 1)
+      | _, _ => none
+    | _ => none
+
 def judgeCommon (case impl : String) : Option String :=
   match words case with
   | "exp" :: _ :: want =>
@@ -335,10 +401,19 @@ def judgeCommon (case impl : String) : Option String :=
     some (if got == want then "ok"
       else if got.startsWith "panic" || got.startsWith "crash" || got.startsWith "hang" then "bad panic-or-crash"
       else s!"bad corpus-expectation want={want.take 200}")
-  | "mut" :: _ =>
+  | "mut" :: hex :: _ =>
     let got := impl.trimAscii.toString
     some (if got.startsWith "panic" || got.startsWith "crash" || got.startsWith "hang" then s!"bad panic-or-crash {got.take 80}"
-      else if got == "rejected" || got.startsWith "ok " then "ok" else "bad malformed-output")
+      else if got == "rejected" then "ok"
+      else if got.startsWith "ok " then
+        -- an accepted load is checked against the newest table, read from the bytes alone
+        match bytesOfHex hex with
+        | some file =>
+          (match entryViolation file (definedOf got) with
+           | some msg => s!"bad accepted-with-wrong-object-at-entry {msg}"
+           | none => "ok")
+        | none => "bad-case"
+      else "bad malformed-output")
   | _ => none
 
 def judge (case impl : String) : String :=
@@ -348,6 +423,7 @@ def judge (case impl : String) : String :=
     match words case with
     | ["doc", hex, seed, variant] => judgeScene (genDoc seed.toNat! variant.toNat!) hex impl
     | ["mism", hex, seed, variant] => judgeScene (genMism seed.toNat! variant.toNat!) hex impl
+    | ["sys", hex, seed, variant, mode] => judgeScene (genSys seed.toNat! variant.toNat! mode.toNat!) hex impl
     | _ => "skip"
 
 /-! ### corruption of a rendered file -/
@@ -388,6 +464,12 @@ def gen (seed n : Nat) (_tier : String) (emit : String → IO Unit) : IO Unit :=
     if k % 2 == 0 then
       let (mb, _) := mutate bytes (Rng.mk' (s + 17))
       emit s!"mut {hexOfBytes mb}"
+    -- systematic identity mismatches: every corruption mode in every layout, 27 cases per 9 documents
+    if k % 3 == 0 then
+      let mode := (k / 9) % 9
+      let sy := genSys s (k / 3) mode
+      let (sb, _, _, _) := render sy
+      emit s!"sys {hexOfBytes sb} {s} {k / 3} {mode}"
 
 /-- non-trivial: a document with at least 3 defined objects / a mismatch case / a corrupted file of ≥ 200 bytes -/
 def nontrivial (line : String) : Bool :=
@@ -395,6 +477,7 @@ def nontrivial (line : String) : Bool :=
   | "doc" :: hex :: _ => hex.length ≥ 600
   | "hist" :: hex :: _ => hex.length ≥ 600
   | "mism" :: _ => true
+  | "sys" :: _ => true
   | "exp" :: _ => true
   | "mut" :: hex :: _ => hex.length ≥ 400
   | _ => false
